@@ -23,7 +23,9 @@ def unary_ops(ctx, v):
            'is_string {}', 'as_str {}', 'to_str {}', 'is_array {}', 'is_object {}', 'exists_all_keys {} %s' % ks, 'exists_any_keys {} %s' % ks,
            'traverse_check_string {} %s' % k, 'to_serde_json {}', 'to_serde_json_object {}', 'convert_to_comparable {}',
            'delete_by_keypath {} %s' % kp, 'delete_by_name {} %s' % k, 'delete_by_index {} %d' % i, 'array_distinct {}',
-           'object_delete {} %s' % ks, 'object_pick {} %s' % ks, 'strip_nulls {}', 'path_exists {} %s' % p, 'path_match {} %s' % p,
+           'object_delete {} %s' % ks, 'object_pick {} %s' % ks, 'exists_all_keys {} _', 'exists_any_keys {} _',
+           'exists_all_keys {} %s' % (k + ',' + k + ',' + k), 'exists_any_keys {} %s' % (k + ',' + k),
+           'get_by_name {} %s 1' % gen.hexarg(bytes(gen.unhexarg(k)).decode('utf-8', 'ignore').swapcase().encode() or b'x'), 'strip_nulls {}', 'path_exists {} %s' % p, 'path_match {} %s' % p,
            'get_by_path {} %s' % p, 'get_by_path_first {} %s' % p, 'get_by_path_array {} %s' % p, 'parse_lazy_value {}']
     return ops
 
